@@ -405,3 +405,41 @@ Proof.
   { unfold fmtnum. destruct (Nat.eqb (count_pct f) 1) eqn:Q; [apply Nat.eqb_eq in Q; contradiction|reflexivity]. }
   split; [exact E|]. unfold fmtifnum. now rewrite E.
 Qed.
+
+(* ---- leftpad / rightpad / truncate: length laws in characters *)
+From Miller Require Import C15.Utf8Proofs.
+Lemma strlen_repeat p k b : valid_utf8 p = true ->
+  strlen (List.concat (repeat p k) ++ b) = (Z.of_nat k * strlen p + strlen b)%Z.
+Proof.
+  intros V. induction k as [|k IH].
+  - cbn [repeat List.concat app]. lia.
+  - cbn [repeat List.concat]. rewrite <- app_assoc. rewrite (strlen_app_valid p _ V). rewrite IH. lia.
+Qed.
+Lemma leftpad_length s n p : valid_utf8 p = true ->
+  strlen (leftpad s n p) = (Z.of_nat (pad_count s n p) * strlen p + strlen s)%Z.
+Proof. intros V. unfold leftpad. apply strlen_repeat. exact V. Qed.
+Lemma rightpad_length s n p : valid_utf8 s = true -> valid_utf8 p = true ->
+  strlen (rightpad s n p) = (strlen s + Z.of_nat (pad_count s n p) * strlen p)%Z.
+Proof.
+  intros Vs V. unfold rightpad. rewrite (strlen_app_valid s _ Vs). f_equal.
+  rewrite <- (app_nil_r (List.concat (repeat p (pad_count s n p)))). rewrite (strlen_repeat p _ [] V).
+  change (strlen []) with 0%Z. lia.
+Qed.
+Lemma pad_count_bounds s n p : (0 < strlen p)%Z -> (strlen s + strlen p <= n)%Z ->
+  (n - strlen p < Z.of_nat (pad_count s n p) * strlen p + strlen s <= n)%Z.
+Proof.
+  intros P H. unfold pad_count.
+  replace ((strlen p <=? 0)%Z || (n <? strlen s + strlen p)%Z) with false by lia.
+  assert (Q : (0 <= (n - strlen s) / strlen p)%Z) by (apply Z.div_pos; lia).
+  rewrite (Z2Nat.id _ Q).
+  pose proof (Z.div_mod (n - strlen s) (strlen p) ltac:(lia)) as D.
+  pose proof (Z.mod_pos_bound (n - strlen s) (strlen p) P) as B. nia.
+Qed.
+Lemma pad_count_zero s n p : (n < strlen s + strlen p)%Z -> leftpad s n p = s /\ rightpad s n p = s.
+Proof.
+  intros H. unfold leftpad, rightpad, pad_count.
+  replace ((strlen p <=? 0)%Z || (n <? strlen s + strlen p)%Z) with true by lia.
+  cbn [repeat List.concat app]. split; [reflexivity|apply app_nil_r].
+Qed.
+Lemma truncate_short s n : (strlen s <= n)%Z -> truncate s n = s.
+Proof. intros H. unfold truncate. unfold strlen in H. now replace (Z.of_nat (List.length (runes s)) <=? n)%Z with true by lia. Qed.
